@@ -261,6 +261,37 @@ fn define_natives(it: &It) -> Result<(), SchemeError> {
     Ok(())
 }
 
+fn capture_stdout<T>(f: impl FnOnce() -> T) -> (T, String) {
+    use std::io::{Read, Seek, SeekFrom, Write};
+    use std::os::unix::io::AsRawFd;
+    std::io::stdout().flush().ok();
+    let mut tmp = tempfile_in_work();
+    let saved = unsafe { libc::dup(1) };
+    unsafe { libc::dup2(tmp.as_raw_fd(), 1) };
+    let r = catch_unwind(AssertUnwindSafe(f));
+    std::io::stdout().flush().ok();
+    unsafe {
+        libc::dup2(saved, 1);
+        libc::close(saved);
+    }
+    let mut shown = String::new();
+    tmp.seek(SeekFrom::Start(0)).ok();
+    let mut bytes = Vec::new();
+    tmp.read_to_end(&mut bytes).ok();
+    shown.push_str(&String::from_utf8_lossy(&bytes));
+    match r {
+        Ok(v) => (v, shown),
+        Err(p) => std::panic::resume_unwind(p),
+    }
+}
+
+fn tempfile_in_work() -> std::fs::File {
+    let path = std::env::temp_dir().join(format!("verif-cap-{}-{:?}", std::process::id(), std::thread::current().id()));
+    let f = std::fs::OpenOptions::new().read(true).write(true).create(true).truncate(true).open(&path).expect("tmp");
+    std::fs::remove_file(&path).ok();
+    f
+}
+
 fn library_name(parts: &J) -> LibraryName {
     LibraryName(
         parts
@@ -355,6 +386,17 @@ fn run_step<'a>(s: &mut Session<'a>, step: &J) -> J {
             if pr.as_array().map(|a| !a.is_empty()).unwrap_or(false) {
                 o["probes"] = pr;
             }
+            o
+        }
+        "evalcap" => {
+            // evaluate with file descriptor 1 redirected to a temporary file: what the program displays
+            // (only meaningful with --threads 1: the descriptor is shared by the whole process)
+            let text = step["text"].as_str().unwrap_or("");
+            let it = s.its[i].as_mut().expect("no interpreter");
+            let (r, shown) = capture_stdout(|| it.eval(text.chars()));
+            let mut o = project_outcome(&r);
+            o["displayed"] = cps(&shown);
+            o["ticks"] = take_ticks();
             o
         }
         "evalfile" => {
